@@ -25,27 +25,27 @@ META = {
         "technique": _CONC_TECH,
     },
     "C18": {
-        "text": "Reachability of every value is decided by witness synthesis plus a universal check on the real code: for each span bit length the solver finds a bias word that makes genUintNBiased draw at full width, and then shows for ALL ranges of that bit length and ALL values that the real Uint64Range/Int64Range returns the value on [witness, value] — a Skolem-function discharge of the forall-exists claim; a bit length without witness (exhaustive search) is an unreachable band, confirmed by a native 400000-draw sweep. Edge frequency is reduced to solver-proved forcing regions of measure >= 2^-8; seed freshness to satisfiability of 'two base seeds differ' and distinctness of the per-case seeds.",
+        "text": "Reachability of every integer value by witness synthesis plus a universal check (for each span bit length the solver finds a bias word forcing a full-width draw, then shows for ALL ranges of that bit length and ALL values that the real Uint64Range/Int64Range returns the value); edge frequency by solver-proved forcing regions of measure >= 2^-8; float edges: for representative ranges (bounds from -Inf ... +Inf) the solver synthesises bitstreams on which the real Float64Range returns exactly min, max and zero; freshness: for EVERY environment satisfying its contracts (entropy values pairwise distinct, clock non-decreasing, pid constant) two Checks of one test in one process start from different seeds, and the per-case seeds of one run differ.",
         "note": _ENGINE_NOTE + " The harness-side Skolem function replicates the sign/offset split of genIntRange.",
     },
     "C02": {
-        "text": "Bounded symbolic model checking of the real checkOnce/T/customGen code: the property function is an interpreter over a symbolic opcode program, so the solver chooses the program (failure kind x callback context) as well as the data; for every program within the bound the invocation is classified as failed iff a failure signal was raised. One inductive step on the funnel every invocation goes through.",
+        "text": "Bounded symbolic model checking of the real checkOnce/T/customGen code with the property as an interpreter over a symbolic opcode program (failure kind x callback context, incl. Error() with an empty message and panic(nil)): the invocation is classified as failed iff a failure signal was raised; plus: a fail-file replay that fails is never dropped when a second replay passes, a test case that ran and failed is never dropped by the early exit near the deadline (loop cut-point with a symbolic clock), and a non-fatal failure signalled by a goroutine that outlived its test case is seen by the test case that runs next (concurrent mode).",
         "note": _ENGINE_NOTE,
     },
     "C05": {
-        "text": "compareData is shown to be the strict length-then-lexicographic order on all buffers up to 3 words (reference definition, antisymmetry, transitivity), and one inductive step on the real shrinker.accept from every state a run can produce shows: an accepted candidate is strictly smaller, fails at the same site (traceback), and replays to the same error; a rejected candidate changes nothing. shrink()'s passes change state only through accept, so the step covers any number of rounds and any deadline; well-foundedness of short-lex is a stated mathematical fact.",
+        "text": "compareData is the strict length-then-lexicographic order (reference definition, antisymmetry, transitivity on buffers up to 3 words); one inductive step on the real shrinker.accept from every state a run can produce (any history counters): an accepted candidate is strictly smaller, fails at the same site (also for sites inside helper functions that call t.Helper and inside cleanup functions) and replays to the same error, it is still a falsification (never a merely skipped case), a rejected candidate leaves buffer and recorded failure together; and the real shrink() with all its passes on a two-group recording only ever accepts strictly smaller candidates and returns nothing larger than it was given.",
         "note": _ENGINE_NOTE,
     },
     "C01": {
-        "text": "Three obligations on the real code whose conjunction is the statement: (1) bounded symbolic model checking of checkTB/doCheck/shrink end to end with a symbolic deterministic program, symbolic PRNG words and (thorough) a symbolic clock: whenever Errorf is called some executed case falsified, the final replay falsifies with the named failure, its logged draws are the values it received, and 'flaky' never appears; (2) the inductive step on shrinker.accept (shared with C05): whatever buffer the shrinker holds replays to the error it is reported with, for any number of rounds and any deadline; (3) prune/replay equivalence (shared with C04) for the recording handed to the shrinker.",
+        "text": "Obligations on the real code whose conjunction is the statement: (1) bounded model checking of checkTB/doCheck/shrink end to end with a symbolic deterministic program, symbolic PRNG words and (thorough) a symbolic clock; (2) the real shrink() cut short at any point by a symbolic clock returns a buffer and a failure that belong together; (3) the inductive step on shrinker.accept (shared with C05): what the shrinker holds replays to the error it is reported with, and is a falsification; (4) prune/replay equivalence (shared with C04) for the recording handed to the shrinker, including state-machine test cases.",
         "note": _ENGINE_NOTE,
     },
     "C04": {
-        "text": "Bounded symbolic model checking of record -> prune -> replay on the real streams, repeat/find/rejection loops and generators: for every recording of up to 10..16 symbolic words (any number of rejected attempts and forced stops inside the bound) the pruned recording replays to the same values, consumes every word and re-records to itself. Seed determinism is covered by C07's two-run harness.",
+        "text": "Bounded symbolic model checking of record -> prune -> replay on the real streams, repeat/find/rejection loops and generators: for every recording of up to 8..20 symbolic words the pruned recording replays to the same values and verdict, consumes every word and re-records to itself - for collections with rejected elements, Filter, Permutation, bounded integers with any number of rejected samples, rejections nested in rejections, state-machine test cases whose actions draw, fail and skip, and whole test cases given by symbolic programs (failures raised inside Custom/Filter attempts included); same seed, same test cases whatever ran earlier in the process (-rapid.seed verbatim for consecutive Checks; generators built from shared tables draw the same values).",
         "note": _ENGINE_NOTE,
     },
     "C06": {
-        "text": "Bounded symbolic model checking of the real saveFailFile/loadFailFile/checkTB/doCheck/checkFailFile over an in-memory file system: the save/load round trip is exact for symbolic seed and words and for output lines of every length class around the 64 KiB scanner limit; over the two-run history fail -> rerun exactly one discoverable file is left, it encodes the final counterexample, and the next Check replays it before any random case and fails 'after 0 tests' with the same draw. File contents and names are case-split representatives (strings are concrete in the executor).",
+        "text": "Bounded symbolic model checking of the real saveFailFile/loadFailFile/checkTB/doCheck/checkFailFile over an in-memory file system: exact save/load round trip (symbolic seed and words, output lines around the 64 KiB scanner limit, a 600-word counterexample spanning several scanner refills); over the history fail -> rerun exactly one discoverable file is left (also when a second passes between two timestamps), it encodes the final counterexample and the next Check replays it first and fails 'after 0 tests'; a test calling Check twice keeps the other Check's persisted failure.",
         "note": _ENGINE_NOTE + " File-system model instead of package os.",
     },
     "C16": {
@@ -53,11 +53,11 @@ META = {
         "note": _ENGINE_NOTE + " File-system model instead of package os; a kill runs no deferred calls.",
     },
     "C17": {
-        "text": "Bounded symbolic model checking of loadFailFile/checkFailFile/doCheck on 15 shapes of unusable fail files: no panic, no failed test, and (2-run self-composition against an empty directory, symbolic seed) identical verdict tuple and identical random test cases. Arbitrary byte contents are outside the claim (case-split shapes only).",
+        "text": "Bounded symbolic model checking of loadFailFile/checkFailFile/doCheck on 19 shapes of unusable fail files plus every truncation of a valid one: no panic, no failed test, identical verdict tuple and identical random test cases compared with an empty directory (2-run self-composition, symbolic seed); unusable files sorted in front of a usable one with the same seed change nothing; a file that has become too short for the property is ignored, never completed with made-up data.",
         "note": _ENGINE_NOTE + " File-system model instead of package os.",
     },
     "C07": {
-        "text": "Bounded symbolic model checking of the real findBug/doCheck/checkTB with a symbolic 64-bit seed: the reported seed equals the failing case's seed, regenerates its draws, makes the first case of a re-run fail 'after 0 tests', is the one printed, and two runs from one seed are identical invocation by invocation. Bounded in N (2/3 test cases).",
+        "text": "Bounded symbolic model checking of the real findBug/doCheck/checkTB with a symbolic 64-bit seed (reported seed = seed of the failing case, regenerates its draws, 'after 0 tests' on re-run, two runs identical) plus two loop cut-point steps valid for every position of a run of any length: the seed reported for a failing case regenerates it, and a failing case does not depend on state the reused stream/T carry over from earlier cases (a fresh stream with the reported seed gives the same draws); -rapid.seed is used verbatim whatever ran earlier in the process, also by a second Check.",
         "note": _ENGINE_NOTE,
     },
     "C08": {
@@ -65,7 +65,7 @@ META = {
         "note": _ENGINE_NOTE,
     },
     "C09": {
-        "text": "Bounded symbolic model checking of the real findBug loop and checkTB verdict: for N up to 2/3 and every pass/skip/fail outcome sequence chosen by the solver, exactly N valid cases are run (or exactly 10*N skipped), nothing runs after the first falsified case, fewer than N valid cases fails with Errorf, and every failure ends in FailNow. Bounded in N (no inductive cut-point); the early-exit-near-deadline branch is assumed not taken.",
+        "text": "Two layers on the real findBug/checkTB: (1) one inductive step of the findBug loop from an arbitrary loop state (loop cut-point: every N up to 2^32, every position in a run, any outcome, far deadline and symbolic clock): exactly one invocation per iteration, exact valid/invalid counting, immediate return on a falsified case, no early exit while the deadline is far, a case that ran and failed is never dropped, exit only with valid == N or invalid == 10N; (2) bounded model checking for N <= 2/3 with every outcome sequence chosen by the solver, the checkTB verdict (OK / 'only generated' / failure, FailNow) and the fail-file-first rule with a flaky property.",
         "note": _ENGINE_NOTE,
     },
     "C13": {
